@@ -409,6 +409,55 @@ func c08Reuse(c *fw.Case) {
 		}
 		pat += map[bool]string{true: "x", false: "v"}[refused] + map[int]string{0: "u", 1: "p"}[packedMode]
 	}
+	// two transformer objects of the same kind at work at the same time (two connections): A is given a destination
+	// that is too small, B transforms another message completely, then A is given room. Neither may see the other.
+	{
+		mode := r.Intn(2)
+		ta, tb := "first message, somewhat longer: 0123456789", "second [one]"
+		if r.Bool() {
+			ta, tb = tb, ta
+		}
+		sa, _ := tab.Encode(ta)
+		sb, _ := tab.Encode(tb)
+		wa, wb := sa, sb
+		if mode == 1 {
+			wa, wb = ref.Pack(sa), ref.Pack(sb)
+		}
+		for _, enc := range []bool{true, false} {
+			var A, B transform.Transformer
+			var inA, inB, wantA, wantB []byte
+			if enc {
+				A, B = g7.GSM7(mode == 1).NewEncoder().Transformer, g7.GSM7(mode == 1).NewEncoder().Transformer
+				inA, inB, wantA, wantB = []byte(ta), []byte(tb), wa, wb
+			} else {
+				A, B = g7.GSM7(mode == 1).NewDecoder().Transformer, g7.GSM7(mode == 1).NewDecoder().Transformer
+				inA, inB, wantA, wantB = wa, wb, []byte(ta), []byte(tb)
+			}
+			c.Evals(1)
+			var gotA, gotB []byte
+			var eA, eB error
+			if !try1(c, "two transformers interleaved", inA, func() {
+				small := dirty(r, r.Intn(len(wantA)))
+				n1, _, e1 := A.Transform(small, append([]byte(nil), inA...), true)
+				gotA = append(gotA, small[:n1]...)
+				bigB := dirty(r, len(wantB)+8)
+				nb, _, e := B.Transform(bigB, append([]byte(nil), inB...), true)
+				gotB, eB = bigB[:nb], e
+				if e1 != nil {
+					bigA := dirty(r, len(wantA)+8)
+					n2, _, e2 := A.Transform(bigA, append([]byte(nil), inA...), true)
+					gotA, eA = append(gotA, bigA[:n2]...), e2
+				}
+			}) {
+				return
+			}
+			if eA != nil || eB != nil || !bytes.Equal(gotA, wantA) || !bytes.Equal(gotB, wantB) {
+				c.Failf("entrypoints-disagree/two-transformers-interleaved", "two %s objects (packed=%v) used in turn: A (short destination first) gave (%s, %v), reference %s; B gave (%s, %v), reference %s",
+					map[bool]string{true: "encoder", false: "decoder"}[enc], mode == 1, hx(gotA), eA, hx(wantA), hx(gotB), eB, hx(wantB))
+				return
+			}
+		}
+	}
 	c.Cover("reuse/" + pat[:4])
 }
 
